@@ -340,6 +340,10 @@ SCEN = {"strain": sc_strain, "stress": sc_stress, "energy": sc_energy, "average"
 
 
 # ------------------------------------------------------------------------------------------------
+def VIEWS_LAYOUT_ITEMS(it, tier):
+    return True
+
+
 def items(tier):
     q = tier == "quick"
     out = []
